@@ -15,10 +15,23 @@ for d in sorted(glob.glob(os.path.join(ROOT, "seeded", "*", ""))):
     silent = [c for c, rc, _ in checks if rc == "0"]
     other = [f"{c}:rc={rc}" for c, rc, _ in checks if rc not in ("0", "1")]
     first = next((t.strip()[:110] for c, rc, t in checks if rc == "1" and t.strip()), "")
+    rm = re.search(r"demo_clean_rc=(\d+) demo_mutant_rc=(\d+) tests: (.*?)(?: applied_on=(\S+))?$", res, re.M)
+    neutral = bool(rm) and rm.group(2) == "0"
+    if rm:
+        meta.setdefault("confirmed", {}).update({"demo_clean_rc": int(rm.group(1)), "demo_with_change_rc": int(rm.group(2)),
+                                                 "test_suite_with_change": rm.group(3).strip(), "applied_on": rm.group(4) or "HEAD"})
+    meta["neutralised_on_current_tree"] = neutral
     meta["final_matrix"] = {"alarm": caught, "silent": silent, "other": other, "first_signature": first}
     json.dump(meta, open(mp, "w"), indent=1)
     need = (meta.get("needs_to_manifest") or "").split("\n")[0][:150]
-    rows.append((meta["id"], meta["breaks_property"], ", ".join(caught) or "-", ", ".join(silent) or "-", "yes" if meta.get("first_pass_missed") else "no", need))
+    fp = meta.get("first_pass_missed")
+    strg = meta.get("strengthening") or ""
+    fpm = "yes" if fp else ("pre-empted" if strg.startswith("pre-emptively") else ("out of scope" if strg.startswith("NOT caught") else "no"))
+    if neutral:
+        caught_s = "(change no longer breaks the property after a later fix: in /repo: demo passes, checks silent)"
+    else:
+        caught_s = ", ".join(caught) or "-"
+    rows.append((meta["id"], meta["breaks_property"], caught_s, ", ".join(silent) or "-", fpm, need))
 with open(os.path.join(ROOT, "seeded", "RESULTS.md"), "w") as f:
     f.write("# Seeded changes: catch matrix\n\nEvery change passes the repository's 325 tests; its demo fails with the change and passes without it "
             "(confirmed by `tools/seedtest.sh` in a scratch worktree). Columns: checks run against it (quick tier) that raise an alarm / stay silent; "
@@ -26,6 +39,11 @@ with open(os.path.join(ROOT, "seeded", "RESULTS.md"), "w") as f:
     f.write("| id | breaks | alarm | silent | first pass missed | change (first line of the author's note) |\n|---|---|---|---|---|---|\n")
     for r in rows:
         f.write("| " + " | ".join(r) + " |\n")
-    tgt = sum(1 for r in rows if r[1] in r[2].split(", "))
-    f.write(f"\n{tgt} of {len(rows)} seeded changes are reported by the check of the property they were written to break.\n")
+    live = [r for r in rows if not r[2].startswith("(change no longer")]
+    tgt = sum(1 for r in live if r[1] in r[2].split(", "))
+    anyc = sum(1 for r in live if r[2] != "-")
+    f.write(f"\n{len(rows)} seeded changes; {len(rows) - len(live)} were neutralised by later fix: commits (they emulate a defect whose root cause has since been repaired).\n"
+            f"Of the remaining {len(live)}: {tgt} are reported by the check of the property they were written to break, {anyc} by at least one check; "
+            f"not reported by any check: {', '.join(r[0] + (' [' + r[4] + ']') for r in live if r[2] == '-' and r[3] != '-') or 'none'}; "
+            f"not evaluated yet: {', '.join(r[0] for r in live if r[2] == '-' and r[3] == '-') or 'none'}.\n")
 print(len(rows), "rows")
